@@ -219,6 +219,255 @@ def ob_gate_var_choi(sys, flag):
     return FnOb(reals("x", nv, -BOX, BOX), run)
 
 
+def _U(to_basis, from_basis):
+    """U_ab = Tr(to_a^† from_b)"""
+    n = len(to_basis)
+    U = np.zeros((n, n), dtype=complex)
+    for a in range(n):
+        for b in range(n):
+            U[a, b] = np.vdot(to_basis[a], from_basis[b])
+    return U
+
+
+def comp_basis_ref(d, mode):
+    """matrix units E_ij listed row-major (i slow) or column-major (j slow)"""
+    out = []
+    for a in range(d):
+        for b in range(d):
+            E = np.zeros((d, d), dtype=complex)
+            if mode == "row_major":
+                E[a, b] = 1
+            else:
+                E[b, a] = 1
+            out.append(E)
+    return out
+
+
+def ob_gate_convert(sys, mode):
+    """HS in the comp basis (row/column major) and in another orthonormal basis: HS' = U HS U^†
+    (U_ab = Tr(B'_a^† B_b)); comp-basis HS equals sum_ab hs_ab |B_a>><<B_b| entrywise; there and back = id"""
+    d = DIMS[sys]
+    n = d * d
+    B = basis_of(sys)
+
+    def run(I):
+        from quara.objects import gate as G
+        from quara.objects import matrix_basis as MB
+        c = qenv.csys(sys)
+        hs = mat_of(I, "h", n, n)
+        g = mk_gate(c, hs)
+        E = comp_basis_ref(d, mode)
+        U = _U(E, B)
+        ref = refs.mm(refs.mm(U, hs), U.conj().T)
+        got = g.convert_to_comp_basis(mode=mode)
+        out = [Eq(f"convert_to_comp_basis({mode})==U hs U†", got, ref)]
+        # entrywise definition: HS_cb[(i,j),(k,l)] = sum_ab hs_ab flat(B_a)[ij] conj(flat(B_b))[kl]
+        order = "C" if mode == "row_major" else "F"
+        fl = np.array([b.flatten(order=order) for b in B])          # n x d^2
+        ref2 = refs.mm(refs.mm(fl.T, hs), fl.conj())
+        out.append(Eq("comp HS == sum hs_ab |B_a>><<B_b|", got, ref2))
+        back = G.convert_hs(got, c.comp_basis(mode=mode), c.basis())
+        out.append(Eq("convert back == hs", back, hs))
+        if sys in ("Q1", "T1"):
+            other = MB.get_normalized_hermitian_basis(d) if sys == "Q1" else MB.get_normalized_generalized_gell_mann_basis(dim=3)
+            Bo = [np.asarray(b.toarray() if hasattr(b, "toarray") else b) for b in other]
+            U2 = _U(Bo, B)
+            out.append(Eq("convert_basis(other)==U hs U†", g.convert_basis(other), refs.mm(refs.mm(U2, hs), U2.conj().T)))
+        return out
+    return FnOb(reals("h", n * n, -BOX, BOX), run)
+
+
+def ob_vec_convert(sys):
+    """convert_vec / State.convert_basis / Povm.convert_basis: new_vec_a = Tr(B'_a^† sum_b v_b B_b)"""
+    d = DIMS[sys]
+    n = d * d
+    B = basis_of(sys)
+
+    def run(I):
+        from quara.objects import matrix_basis as MB
+        c = qenv.csys(sys)
+        v = vec_of(I, "v", n)
+        st = mk_state(c, v)
+        out = []
+        M = refs.ref_matrix(v, B)
+        for mode in ("row_major", "column_major"):
+            E = comp_basis_ref(d, mode)
+            got = MB.convert_vec(v, c.basis(), c.comp_basis(mode=mode))
+            out.append(Eq(f"convert_vec->comp({mode})", got, refs.ref_vec(M, E)))
+            out.append(Eq(f"convert_vec back({mode})", MB.convert_vec(got, c.comp_basis(mode=mode), c.basis()), v))
+        got = st.convert_basis(c.comp_basis())
+        out.append(Eq("State.convert_basis(comp)", got, refs.ref_vec(M, comp_basis_ref(d, "row_major"))))
+        pv = mk_povm(c, [v, v * 2.0])
+        gp = pv.convert_basis(c.comp_basis())
+        out.append(Eq("Povm.convert_basis(comp)[1]", gp[1], refs.ref_vec(M, comp_basis_ref(d, "row_major")) * 2.0))
+        return out
+    return FnOb(reals("v", n, -BOX, BOX), run)
+
+
+def ob_gate_process(sys):
+    """process matrix chi: sum_ab chi_ab E_a (x) conj(E_b) reproduces the comp-basis HS (E = matrix units, row major)"""
+    d = DIMS[sys]
+    n = d * d
+    B = basis_of(sys)
+
+    def run(I):
+        c = qenv.csys(sys)
+        hs = mat_of(I, "h", n, n)
+        g = mk_gate(c, hs)
+        chi = g.to_process_matrix()
+        E = comp_basis_ref(d, "row_major")
+        fl = np.array([b.flatten() for b in B])
+        hs_cb = refs.mm(refs.mm(fl.T, hs), fl.conj())
+        tot = np.zeros((n, n), dtype=object)
+        for a in range(n):
+            for b in range(n):
+                K = np.kron(E[a], np.conj(E[b]))
+                for r, s_ in zip(*np.nonzero(K)):
+                    tot[r, s_] = tot[r, s_] + chi[a, b] * K[r, s_]
+        return [Eq("sum chi_ab E_a(x)conj(E_b) == HS_cb", tot.view(SymNd), hs_cb)]
+    return FnOb(reals("h", n * n, -BOX, BOX), run)
+
+
+def ob_hs_from_kraus(sys, nk):
+    """to_hs_from_kraus_matrices on symbolic complex Kraus operators == Tr(B_a^† K B_b K^†) summed"""
+    d = DIMS[sys]
+    B = basis_of(sys)
+
+    def run(I):
+        from quara.objects import gate as G
+        c = qenv.csys(sys)
+        Ks = [cvec_of(I, f"k{t}_", d * d).reshape(d, d) for t in range(nk)]
+        got = G.to_hs_from_kraus_matrices(c, Ks, eps_truncate_imaginary_part=1e-10)
+        ref = refs.ref_hs_from_kraus(Ks, B)
+        return [Eq("hs_from_kraus==ref", got, ref.real, 1e-8)]
+    inp = []
+    for t in range(nk):
+        inp += creals(f"k{t}_", d * d, -3.0, 3.0)
+    return FnOb(inp, run, expect_nonlinear=True, outside=["Kraus entries outside [-3,3]"])
+
+
+def ob_kraus_from_hs(sys, vname, nzero):
+    """to_kraus_matrices_from_hs with the Choi matrix given by its spectral decomposition
+    C = V diag(w) V^†: the first `nzero` eigenvalues are exactly 0, the others symbolic in [1e-6,10] with gaps;
+    claims: number of Kraus operators == rank, sum_k K (x) conj(K) (independent formula) reproduces hs,
+    K_k^† K_l orthogonality Tr(K_k^† K_l) = w_k delta_kl"""
+    from symq import stubs
+    d = DIMS[sys]
+    n = d * d
+    B = basis_of(sys)
+    V = dict(refs.positive_frames(n))[vname]
+    names = [f"w{i}" for i in range(nzero, n)]
+
+    def wlist(I):
+        return [0.0] * nzero + [I[k] for k in names]
+
+    def assume(I):
+        return stubs.gaps(wlist(I)[nzero:], 1e-6) if n - nzero > 1 else []
+
+    def run(I):
+        from quara.objects import gate as G
+        c = qenv.csys(sys)
+        w = wlist(I)
+        C = stubs.spectral(w, V, "choi")
+        hs = refs.ref_hs_from_choi(C, B).real
+        ks = G.to_kraus_matrices_from_hs(c, hs, atol=1e-9)
+        out = [Holds("number of Kraus operators == rank", len(ks) == n - nzero)]
+        back = refs.ref_hs_from_kraus(ks, B) if len(ks) else np.zeros((n, n))
+        out.append(Eq("sum_k Tr(B_a† K B_b K†) == hs", back, hs, 1e-7))
+        for k, K in enumerate(ks):
+            # sorted by decreasing eigenvalue: Tr(K_k† K_k) = k-th largest eigenvalue
+            out.append(Eq(f"Tr(K_{k}† K_{k}) == w_(n-1-{k})", refs.tr(refs.mm(refs.dag(K), K)), w[n - 1 - k], 1e-7))
+        return out
+    return FnOb([(k, "real", 1e-6, 10.0) for k in names], run, assume=assume, expect_nonlinear=True,
+                stubs=["np.linalg.eigh/eigvalsh: spectral parametrisation, frame " + vname], max_paths=50,
+                outside=["eigenvector frames outside the library (in particular frames whose eigenvectors need the phase-fixing branch)",
+                         "degenerate spectra (LAPACK's eigenvector choice)", "eigenvalues in (0,1e-6)"])
+
+
+def select(arrs, idx):
+    """arrs[idx] for a symbolic integer idx as an element-wise ITE chain"""
+    if not isinstance(idx, Sym):
+        return arrs[int(idx)]
+    out = np.asarray(arrs[-1], dtype=object)
+    for k in range(len(arrs) - 2, -1, -1):
+        a = np.asarray(arrs[k], dtype=object)
+        new = np.empty(a.shape, dtype=object)
+        for pos in np.ndindex(a.shape):
+            new[pos] = ite(idx == k, a[pos], out[pos])
+        out = new
+    return out.view(SymNd)
+
+
+def ob_get_basis_tuple(sys):
+    """CompositeSystem.get_basis((i,j)) == B1_i (x) B2_j for every in-range (i,j) (symbolic integers)"""
+    kinds = {"Q2": "QQ", "QT": "QT", "TQ": "TQ"}[sys]
+    single = {"Q": refs.pauli(True), "T": refs.gell_mann()}
+    n1, n2 = len(single[kinds[0]]), len(single[kinds[1]])
+
+    def run(I):
+        c = qenv.csys(sys)
+        i, j = I["i"], I["j"]
+        got = c.get_basis((i, j))
+        got = got.toarray() if hasattr(got, "toarray") else np.asarray(got)
+        prods = [np.kron(a, b) for a in single[kinds[0]] for b in single[kinds[1]]]
+        ref = select(prods, i * n2 + j)
+        return [Eq("get_basis((i,j))==B_i(x)B_j", got, ref, 1e-12)]
+    return FnOb([("i", "int", 0, n1 - 1), ("j", "int", 0, n2 - 1)], run, max_paths=200)
+
+
+def ob_truncate_hs(nn):
+    """truncate_hs: documented threshold semantics with symbolic eps"""
+    def run(I):
+        from quara.utils import matrix_util as MU
+        x = cvec_of(I, "z", nn)
+        eps = I["eps"]
+        out = []
+        try:
+            got = MU.truncate_hs(x, eps_truncate_imaginary_part=eps)
+            raised = False
+        except ValueError:
+            raised = True
+            got = None
+        ims = [Sym.of(v).imag if isinstance(v, Sym) else np.imag(v) for v in x]
+        res = [Sym.of(v).real if isinstance(v, Sym) else np.real(v) for v in x]
+        absf = (lambda t: abs(t)) 
+        all_small = s_and([SBool.of(absf(t) < eps) | SBool.of(Sym.of(t) == 0) if isinstance(t, Sym) else (abs(t) < eps or t == 0) for t in ims])
+        out.append(Holds("raises iff some |imag| >= eps (and != 0)", iff(raised, ~all_small)))
+        if not raised:
+            exp = [ite(SBool.of(absf(Sym.of(r)) < eps), 0.0, r) for r in res]
+            out.append(Eq("result == real part with |x|<eps zeroed", got, SymNd(exp) if any(isinstance(e, Sym) for e in exp) else np.array(exp, dtype=float), 0.0))
+        return out
+    return FnOb(creals("z", nn, -10.0, 10.0) + [("eps", "real", 1e-13, 1e-2)], run, max_paths=64)
+
+
+def ob_mprocess_conv(sys, m):
+    """per-outcome conversions of a measurement process agree with the gate-level reference"""
+    d = DIMS[sys]
+    n = d * d
+    B = basis_of(sys)
+
+    def run(I):
+        c = qenv.csys(sys)
+        hss = [mat_of(I, f"h{k}_", n, n) for k in range(m)]
+        mp = mk_mprocess(c, hss)
+        out = []
+        E = comp_basis_ref(d, "row_major")
+        U = _U(E, B)
+        cb = mp.convert_to_comp_basis()
+        for k in range(m):
+            ref = refs.ref_choi(hss[k], B)
+            out.append(Eq(f"choi[{k}]", mp.to_choi_matrix(k), ref))
+            out.append(Eq(f"choi_with_dict[{k}]", mp.to_choi_matrix_with_dict(k), ref))
+            out.append(Eq(f"choi_with_sparsity[{k}]", mp.to_choi_matrix_with_sparsity(k), ref))
+            out.append(Eq(f"comp_basis[{k}]", cb[k], refs.mm(refs.mm(U, hss[k]), U.conj().T)))
+            out.append(Eq(f"hs(({k},))", mp.hs((k,)), hss[k]))
+        return out
+    inp = []
+    for k in range(m):
+        inp += reals(f"h{k}_", n * n, -BOX, BOX)
+    return FnOb(inp, run)
+
+
 def obligations(tier):
     out = []
     sys_lin = tiers(tier, ["Q1", "T1"], ["Q1", "T1", "Q2", "QT"])
@@ -230,6 +479,15 @@ def obligations(tier):
     out += specs("C02.gate.choi", [{"sys": s} for s in sys_lin], ob_gate_choi, 5)
     out += specs("C02.gate.hs_from_choi", [{"sys": s} for s in tiers(tier, ["Q1"], ["Q1", "T1", "Q2"])], ob_gate_hs_from_choi, 5)
     out += specs("C02.gate.var_choi", [{"sys": s, "flag": f} for s in tiers(tier, ["Q1"], ["Q1", "T1"]) for f in (True, False)], ob_gate_var_choi)
+    out += specs("C02.gate.convert", [{"sys": s, "mode": md} for s in tiers(tier, ["Q1", "T1", "Q2"], ["Q1", "T1", "Q2", "QT"]) for md in ("row_major", "column_major")], ob_gate_convert, 3)
+    out += specs("C02.vec.convert", [{"sys": s} for s in ["Q1", "T1", "Q2", "QT"]], ob_vec_convert)
+    out += specs("C02.gate.process", [{"sys": s} for s in tiers(tier, ["Q1"], ["Q1", "T1"])], ob_gate_process, 3)
+    out += specs("C02.gate.hs_from_kraus", [{"sys": "Q1", "nk": k} for k in tiers(tier, [1, 2], [1, 2, 3])] + tiers(tier, [], [{"sys": "T1", "nk": 1}]), ob_hs_from_kraus, 4)
+    out += specs("C02.gate.kraus_from_hs", [{"sys": "Q1", "vname": v, "nzero": z} for v in tiers(tier, ["refl(x)cplx"], ["id", "refl(x)cplx", "perm"])
+                                             for z in tiers(tier, [0, 2], [0, 1, 2, 3])], ob_kraus_from_hs, 6)
+    out += specs("C02.csys.get_basis_tuple", [{"sys": s} for s in ["Q2", "QT", "TQ"]], ob_get_basis_tuple, 2)
+    out += specs("C02.truncate_hs", [{"nn": k} for k in tiers(tier, [1, 2], [1, 2, 3])], ob_truncate_hs)
+    out += specs("C02.mprocess.conv", [{"sys": s, "m": m} for s in tiers(tier, ["Q1"], ["Q1", "T1"]) for m in tiers(tier, [2], [2, 3])], ob_mprocess_conv, 4)
     return out
 
 
